@@ -36,6 +36,12 @@ func c09Specs() []*bfsSpec {
 		{Name: "c09-webseed-4MiB-pieces", Cfg: worldCfg{Geom: "gbig", Peers: []peerCfg{{Fast: true, Ext: true, DontHave: 7}}, Webseed: true, AutoDrain: true},
 			Alphabet: []string{"want:0:1", "want:2:0", "unwant:0:1", "tick", "wsmode:404", "wsmode:body-short", "wsmode:honoured", "wsmode:body-fails-mid", "adv:2", "adv:31", "adv:400", "setconf:0", "setconf:1"},
 			Depth: 4, DepthT: 5},
+		// a magnet link: advertisements made before the metadata is known are applied when it
+		// completes, while the torrent's loop lags behind the peers (manual event delivery)
+		{Name: "c09-magnet-lagging-loop", Cfg: worldCfg{Geom: "g2x2", Magnet: true, Peers: []peerCfg{{Fast: true, Ext: true, DontHave: 7, Metadata: 8}, {Fast: true, Ext: true, DontHave: 7, Metadata: 8, MetadataSize: 1}}},
+			Setup:    []string{"drain", "haveall:0", "drain", "mtick", "drain", "manswer:1"},
+			Alphabet: []string{"ev", "drain", "donthave:0:0", "donthave:0:1", "have:1:1", "bf:1:3", "havenone:0", "haveall:1", "close:0"},
+			Depth: 5, DepthT: 7},
 		{BothMapOrders: true, Name: "c09-manual-events", Cfg: worldCfg{Geom: "g2x2", Peers: []peerCfg{{Fast: true, Ext: true, DontHave: 7}, {Fast: true}}, AutoDrain: false},
 			Setup:    []string{"haveall:0", "drain", "haveall:1", "drain", "unchoke:0", "drain", "unchoke:1", "drain", "want:0:1", "tick"},
 			Alphabet: []string{"ev", "drain", "tick", "ans:0:old:full", "ans:1:old:full", "close:0", "close:1", "choke:0", "unwant:0:1", "adv:2"},
@@ -43,7 +49,27 @@ func c09Specs() []*bfsSpec {
 	}
 }
 
-func TestVerifC09(t *testing.T) { runSpecs(t, "C09", c09Specs()) }
+func TestVerifC09(t *testing.T) {
+	specs := c09Specs()
+	for _, s := range specs {
+		if !s.Cfg.Magnet {
+			continue
+		}
+		// peers that announce a metadata size announce the true one
+		g := geomByName(s.Cfg.Geom)
+		truth := make([]byte, g.Length)
+		for i := range truth {
+			truth[i] = wtruthByte(int64(i))
+		}
+		size := uint32(len(buildInfo(g, truth, "world", s.Cfg.InfoSize)))
+		for i := range s.Cfg.Peers {
+			if s.Cfg.Peers[i].MetadataSize != 0 {
+				s.Cfg.Peers[i].MetadataSize = size
+			}
+		}
+	}
+	runSpecs(t, "C09", specs)
+}
 
 // Worlds in which a peer is stepped arm by arm (profile worldsel, see world_test.go):
 // the order in which a peer hands its events to the torrent, handles the
